@@ -6,6 +6,7 @@ package c12
 import (
 	"fmt"
 	"math/rand/v2"
+	"sort"
 	"strings"
 
 	"verifharness/internal/fw"
@@ -34,7 +35,7 @@ func (c12) NumCases(tier string) int {
 }
 
 func (c12) Rule() string {
-	return "Cases 0..S-1 enumerate the scripted racing pairs of notes/scenarios.md rows 1-6, 10, 11 (every variant: competitor unsubscribe / UnsubscribeClient / ctx-cancel of a synchronous subscriber / shutdown, one or two subscribers, both release orders) x every position of an injected resolver shutdown (row 12); a goroutine of the resolver is parked at the verif yield point, the competing action runs to completion, the goroutine is released. The remaining cases are random programs (seeded) of 20-200 actions over 1-3 trigger keys (differing in input or only in the forwarded header) and 2-16 client connections (sync and async API, filters rendered from variables, four response projections, heartbeats, Flush/Heartbeat failures, source Update/UpdateSubscription/Complete/Error/Done/CloseSubscription, UnsubscribeSubscription/UnsubscribeClient/ctx cancel, shutdown) run by concurrent actor lanes with seeded micro-delays at the yield points. Every case is judged by the F4 history checker. Non-trivial: scripted = the racing goroutine was actually parked (rows 6, 11: >=1 message delivered); history = >=1 message delivered and checked and >=1 must-deliver obligation. Distinct = distinct program / scenario variant."
+	return "Cases 0..S-1 enumerate the scripted racing pairs of notes/scenarios.md rows 1-6, 10, 11 and the overlapping-emission row 13 (a source emitting from 2-3 goroutines: event 1 parked inside its fan-out, events 2/3 issued meanwhile; every variant: competitor unsubscribe / UnsubscribeClient / ctx-cancel of a synchronous subscriber / shutdown, one or two subscribers, both release orders) x every position of an injected resolver shutdown (row 12); a goroutine of the resolver is parked at the verif yield point, the competing action runs to completion, the goroutine is released. The remaining cases are random programs (seeded) of 20-200 actions over 1-3 trigger keys (differing in input or only in the forwarded header) and 2-16 client connections (sync and async API, filters rendered from variables, four response projections, heartbeats, Flush/Heartbeat failures, source Update/UpdateSubscription/Complete/Error/Done/CloseSubscription, UnsubscribeSubscription/UnsubscribeClient/ctx cancel, shutdown) run by concurrent actor lanes with seeded micro-delays at the yield points. Every case is judged by the F4 history checker. Non-trivial: scripted = the racing goroutine was actually parked (rows 6, 11: >=1 message delivered); history = >=1 message delivered and checked and >=1 must-deliver obligation. Distinct = distinct program / scenario variant."
 }
 
 func (c12) Assumptions() []string {
@@ -50,7 +51,7 @@ func (c12) RequiredCounters(tier string) []string {
 	return []string{"messages_checked", "must_obligations", "writer_calls", "sub_done_events", "racing_pairs_parked",
 		"hook:sub.update.beforeWriteLock", "hook:sub.complete.afterRemovedCheck", "hook:sub.error.afterRemovedCheck",
 		"hook:sub.heartbeat.beforeSend", "hook:sub.join.beforeStartupHook", "hook:sub.update.afterFilter",
-		"solo_crosschecks", "filtered_events_withheld", "writer_heartbeats", "sync_ids_learned", "cases_history", "cases_script"}
+		"solo_crosschecks", "filtered_events_withheld", "source_defined_order_constraints", "overlapping_update_calls", "order_agreements_checked", "writer_heartbeats", "sync_ids_learned", "cases_history", "cases_script"}
 }
 
 func (p c12) Run(c *fw.Ctx, idx int) fw.Result {
@@ -102,6 +103,7 @@ func Check(res *fw.Result, h *subrig.History) {
 	// private solo rendering vs construction, once per (variant) per case
 	crossChecked := map[int]bool{}
 	unknownSync := 0
+	delivered := map[int][]int{} // subscriber idx -> event ids in delivery order
 	for _, s := range h.Subs {
 		if s.SubInv.Load() == 0 {
 			continue
@@ -209,6 +211,18 @@ func Check(res *fw.Result, h *subrig.History) {
 			if e.Target != nil && e.Target != s {
 				violate(res, "delivery.wrong-target", fmt.Sprintf("%s received e%d addressed to s%d", sname, eid, e.Target.Idx), nil, witness(nil))
 			}
+			if !seen[eid] {
+				delivered[s.Idx] = append(delivered[s.Idx], eid)
+			}
+			// emission order defined by the source although the calls overlap
+			for _, later := range delivered[s.Idx] {
+				for _, before := range h.Events[later-1].After {
+					if before.ID == eid && later != eid {
+						violate(res, "delivery.out-of-order", fmt.Sprintf("%s received e%d after e%d although the source issued e%d only after e%d was already inside its fan-out", sname, eid, later, later, eid),
+							map[string]string{"overlapping": "true"}, witness(nil))
+					}
+				}
+			}
 			if seen[eid] {
 				violate(res, "delivery.duplicate", fmt.Sprintf("%s received e%d twice", sname, eid), nil, witness(nil))
 			}
@@ -261,6 +275,7 @@ func Check(res *fw.Result, h *subrig.History) {
 			}
 		}
 	}
+	checkAgreement(res, h, delivered, witness)
 	// completion events of synchronous subscribers whose identifier was never learned
 	orph := h.OrphanDones()
 	seenConn := map[int64]bool{}
@@ -294,4 +309,62 @@ func violate(res *fw.Result, kind, msg string, match map[string]string, detail a
 		return
 	}
 	res.Violate(kind, msg, match, detail)
+}
+
+// checkAgreement: every subscriber receives the events of its trigger in the order the source
+// emitted them, so two subscribers of one trigger can never disagree on the relative order of two
+// events (emitted through the same Start instance) that both received - also when the source emits
+// from several goroutines and the order between two overlapping calls is otherwise unconstrained.
+func checkAgreement(res *fw.Result, h *subrig.History, delivered map[int][]int, witness func(map[string]any) map[string]any) {
+	for _, e := range h.Events {
+		for _, b := range e.After {
+			_ = b
+			res.Count("source_defined_order_constraints", 1)
+		}
+	}
+	for i, e := range h.Events {
+		if e.Inst == nil || e.Ret == 0 {
+			continue
+		}
+		for _, f := range h.Events[i+1:] {
+			if f.Inst == e.Inst && f.Ret != 0 && f.Call < e.Ret && e.Call < f.Ret {
+				res.Count("overlapping_update_calls", 1)
+			}
+		}
+	}
+	idxs := make([]int, 0, len(delivered))
+	for k := range delivered {
+		idxs = append(idxs, k)
+	}
+	sort.Ints(idxs)
+	for x := 0; x < len(idxs); x++ {
+		for y := x + 1; y < len(idxs); y++ {
+			s1, s2 := idxs[x], idxs[y]
+			if h.Subs[s1].Key != h.Subs[s2].Key {
+				continue
+			}
+			pos2 := map[int]int{}
+			for i, id := range delivered[s2] {
+				pos2[id] = i
+			}
+			// common events in the order of s1, per Start instance
+			last := map[*subrig.Instance][2]int{} // instance -> (position in s2, event id) of the previous common event
+			for _, id := range delivered[s1] {
+				p2, ok := pos2[id]
+				inst := h.Events[id-1].Inst
+				if !ok || inst == nil {
+					continue
+				}
+				if prev, ok := last[inst]; ok {
+					res.Count("order_agreements_checked", 1)
+					if p2 < prev[0] {
+						violate(res, "delivery.order-disagreement", fmt.Sprintf("s%d received e%d before e%d, s%d received e%d before e%d (same trigger, same Start instance i%d): at most one of them saw the order the source emitted", s1, prev[1], id, s2, id, prev[1], inst.ID),
+							nil, witness(nil))
+						return
+					}
+				}
+				last[inst] = [2]int{p2, id}
+			}
+		}
+	}
 }
